@@ -76,7 +76,7 @@ def later_desc(draw, fdefs, groups, desc0, n_range, extend=False):
 
 @st.composite
 def case_strategy(draw, quick=True):
-    nfs = draw(st.integers(1, 3))
+    nfs = draw(st.sampled_from([1, 2, 2, 3, 3]))
     fdefs = []
     seen = set()
     for _ in range(nfs):
@@ -97,6 +97,9 @@ def case_strategy(draw, quick=True):
         assign = [draw(st.integers(0, 2)) for _ in idx]
         if all(a == 0 for a in assign):
             assign[draw(st.integers(0, len(idx) - 1))] = 1
+        if len(idx) >= 2 and draw(st.booleans()):
+            # several field sets in one associated file (one create_associated call mapping several field sets)
+            assign[-1] = assign[-2] = 1
         groups = [[i for i in idx if assign[i] == g] for g in range(3)]
         groups = [groups[0]] + [g for g in groups[1:] if g]
     else:
